@@ -29,7 +29,7 @@ def readout(app: Any, tasks: list[Any], known_ids: list[str]) -> dict[str, str]:
         q.append(str(x))
     for x in q:
         b.route_invocation(x)
-    recs, retries, hist, res, exc, stored = {}, {}, {}, {}, {}, {}
+    recs, retries, hist, res, exc, stored, args = {}, {}, {}, {}, {}, {}, {}
     known = sorted(set(known_ids) | set(q) | set(str(i) for i in o.get_invocation_ids_paginated(limit=100000)))
     for iid in known:
         try:
@@ -49,8 +49,12 @@ def readout(app: Any, tasks: list[Any], known_ids: list[str]) -> dict[str, str]:
             except Exception as ex:
                 store[iid] = "absent:" + type(ex).__name__
         try:
-            sb.get_invocation(iid)
+            got = sb.get_invocation(iid)
             stored[iid] = True
+            try:      # the arguments as a worker would see them (externalised values are resolved through the store)
+                args[iid] = digest(repr(sorted(got.arguments.kwargs.items())))
+            except Exception as ex:
+                args[iid] = "unreadable:" + type(ex).__name__
         except Exception:
             stored[iid] = False
     listings = {
@@ -73,6 +77,6 @@ def readout(app: Any, tasks: list[Any], known_ids: list[str]) -> dict[str, str]:
     except Exception as ex:
         wf = [type(ex).__name__]
     return {"queue": digest(q), "records": digest(recs), "retries": digest(retries), "history": digest(hist),
-            "results": digest(res), "exceptions": digest(exc), "stored_invocations": digest(stored),
+            "results": digest(res), "exceptions": digest(exc), "stored_invocations": digest(stored), "arguments": digest(args),
             "listings": digest(listings), "runners": digest(runners), "trigger": digest(trig),
             "workflows": digest(wf), "queue_len": digest(len(q))}
